@@ -85,7 +85,7 @@ class Engine:
 
     # ------------------------------------------------------------------ obligations
 
-    def oblige(self, fr, state, kind, label, goal, lineno, expect='valid', note=''):
+    def oblige(self, fr, state, kind, label, goal, lineno, expect='valid', note='', using=None):
         goal = to_bool(goal)
         for sc in drain_side_constraints():
             state.pc.append(sc)
@@ -93,7 +93,17 @@ class Engine:
             info = self.functions[fr.contract.target]
             info['trivial'] = info.get('trivial', 0) + 1
             return
-        hyps = list(state.pc) + list(getattr(state, 'guards', []))
+        if using is not None:
+            # explicit hypothesis selection (sound: a subset): the quantifier-free facts plus the named ones
+            hyps = [h for h in state.pc if not st._has_quantifier(h)]
+            for want in using:
+                hit = [t for lbl, t in state.facts.items() if lbl == want or lbl.startswith(want)]
+                if not hit:
+                    raise Unsupported(f"'using' refers to unknown fact {want!r}")
+                hyps.extend(hit)
+            hyps += list(getattr(state, 'guards', []))
+        else:
+            hyps = list(state.pc) + list(getattr(state, 'guards', []))
         ob = Obligation(fr.contract.target, kind, label, lineno, hyps, goal.z(), dict(fr.config), expect,
                         model=self._model_terms(fr), note=note)
         base = ob.fullname()
@@ -101,6 +111,8 @@ class Engine:
         self._names[base] = n + 1
         ob.name = base if n == 0 else f"{base}~{n}"
         ob.props = fr.contract.props
+        ob.fuel = fr.contract.fuel
+        ob.solver_opts = fr.contract.solver_opts
         self.obligs.append(ob)
         info = self.functions[fr.contract.target]
         info['kinds'][kind] = info['kinds'].get(kind, 0) + 1
@@ -127,7 +139,8 @@ class Engine:
             if v.base.kind == 'conc':
                 return ('carr', v.base.elem, v.base.dtype, [self._model_spec(x, heap, lists) for x in c],
                         [s.z() for s in v.base.shape], dims)
-            return ('arr', v.base.elem, v.base.dtype, c['val'], c['tag'], [s.z() for s in v.base.shape], dims)
+            va, ta = st.content_arrays(v.base, c)
+            return ('arr', v.base.elem, v.base.dtype, va, ta, [s.z() for s in v.base.shape], dims)
         if isinstance(v, STuple):
             return ('tuple', [self._model_spec(x, heap, lists) for x in v.items])
         if isinstance(v, SList):
@@ -172,7 +185,7 @@ class Engine:
         fr.entry_ctx = entry_ctx
         req = labelled(contract.requires(entry_ctx) if contract.requires else None, 'requires')
         for label, b in req:
-            state.assume(b)
+            state.assume_named('req:' + label, b)
         # vacuity guard: requires must be satisfiable
         self.oblige(fr, state, 'req-sat', 'requires-satisfiable', SBool(True), fn.lineno, expect='sat')
         body = extract.body_without_docstring(fn)
@@ -369,7 +382,12 @@ class Engine:
         heap = {}
         for k in set(a.heap) | set(b.heap):
             if k in a.heap and k in b.heap:
-                heap[k] = _merge_content(c, a.heap[k], b.heap[k])
+                mc = _merge_content(c, a.heap[k], b.heap[k])
+                if mc is None:
+                    base = self._base_by_id(k, a, b)
+                    ra, rb = st.content_reader(base, a.heap[k]), st.content_reader(base, b.heap[k])
+                    mc = st.fn_content(lambda idx, ra=ra, rb=rb, c=c: merge_values(c, ra(idx), rb(idx)))
+                heap[k] = mc
             else:
                 heap[k] = a.heap.get(k, b.heap.get(k))
         m.heap = heap
@@ -387,6 +405,14 @@ class Engine:
                 lists[k] = a.lists.get(k, b.lists.get(k))
         m.lists = lists
         return m
+
+    def _base_by_id(self, bid, *states):
+        for stt in states:
+            for v in stt.env.values():
+                for arr in _arrays_in(v, stt.lists):
+                    if arr.base.id == bid:
+                        return arr.base
+        raise Unsupported("cannot merge functional array contents of an unreachable array")
 
     # ------------------------------------------------------------------ loops
 
@@ -560,7 +586,17 @@ class Engine:
                         except Exception:
                             raise Unsupported("cannot determine array modified by call in loop")
 
+    def name_functional_arrays(self, s, also=None):
+        seen = set()
+        vals = list(s.env.values()) + (list(also.values()) if also else [])
+        for v in vals:
+            for arr in _arrays_in(v, s.lists):
+                if arr.base.id not in seen and arr.base.kind == 'sym':
+                    seen.add(arr.base.id)
+                    st.name_content(s, arr.base)
+
     def havoc_for_loop(self, node_body, extra_names, s, fr, spec):
+        self.name_functional_arrays(s)
         names, bases, lids = self.collect_modified(node_body, s, fr)
         names |= set(extra_names)
         for nme in sorted(names):
@@ -598,21 +634,25 @@ class Engine:
             return v
         raise Unsupported(f"havoc of {type(v).__name__}")
 
-    def loop_ctx(self, fr, s, entry_state, extra):
+    def loop_ctx(self, fr, s, entry_state, extra, iter0=None):
         vals = dict(s.env)
         vals.update(extra)
         old = Ctx(dict(entry_state.env), entry_state.heap, entry_state.lists, config=fr.config)
-        return Ctx(vals, s.heap, s.lists, a=fr.entry_ctx, old=old, config=fr.config)
+        kw = {}
+        if iter0 is not None:
+            kw['iter0'] = Ctx(dict(iter0.env), iter0.heap, iter0.lists, config=fr.config)
+        return Ctx(vals, s.heap, s.lists, a=fr.entry_ctx, old=old, config=fr.config, **kw)
 
     def check_inv(self, fr, s, spec, entry_state, extra, kind, lineno):
         ctx = self.loop_ctx(fr, s, entry_state, extra)
         for label, b in labelled(spec.invariant(ctx), 'inv'):
-            self.oblige(fr, s, kind, label, b, lineno)
+            using = (spec.keep_using or {}).get(label) if kind == 'inv-keep' else None
+            self.oblige(fr, s, kind, label, b, lineno, using=using)
 
     def assume_inv(self, fr, s, spec, entry_state, extra):
         ctx = self.loop_ctx(fr, s, entry_state, extra)
         for label, b in labelled(spec.invariant(ctx), 'inv'):
-            s.assume(b)
+            s.assume_named('inv:' + label, b)
 
     def deductive_for(self, node, k, spec, dom, s, fr):
         if dom['kind'] == 'range':
@@ -622,6 +662,7 @@ class Engine:
         else:
             a, b, step = SInt(0), dom['count'], SInt(1)
         tname = _target_index_name(node.target, dom)
+        self.name_functional_arrays(s)
         entry = s.clone()
         entry.guards = list(s.guards)
         # 1. invariant holds on entry (index = a)
@@ -642,11 +683,28 @@ class Engine:
         # vacuity: invariant and guard are jointly satisfiable
         self.oblige(fr, body_s, 'req-sat', f'loop{k}-body-reachable', SBool(True), node.lineno, expect='sat')
         self.bind_target(node.target, dom, i, body_s, fr)
+        head_heap = dict(body_s.heap)
+        iter0 = body_s.clone()
+        is_prange = dom.get('prange', False)
+        if is_prange:
+            self.prange_syntactic_check(node, spec, body_s, fr)
         outs = []
         for o in self.exec_block(node.body, body_s, fr):
             if o[1].dead:
                 continue
+            if is_prange:
+                if o[0] not in ('next', 'continue'):
+                    raise Unsupported("break/return inside prange")
+                self.prange_frame(node, spec, head_heap, o[1], i, fr)
             if o[0] in ('next', 'continue'):
+                self.name_functional_arrays(o[1], also=fr.entry_vals)
+                if spec.hints is not None:
+                    hctx = self.loop_ctx(fr, o[1], entry, {tname: i}, iter0=iter0)
+                    for item in spec.hints(hctx):
+                        using = item[2] if len(item) > 2 else None
+                        hlabel, hclause = item[0], to_bool(item[1])
+                        self.oblige(fr, o[1], 'hint', hlabel, hclause, node.lineno, using=using)
+                        o[1].assume_named('hint:' + hlabel, hclause)
                 self.check_inv(fr, o[1], spec, entry, {tname: i + step}, 'inv-keep', node.lineno)
             elif o[0] == 'break':
                 outs.append(('next', o[1], None))
@@ -668,6 +726,47 @@ class Engine:
         ex.env['__exit_' + tname] = ie
         outs.append(('next', ex, None))
         return outs
+
+    def prange_syntactic_check(self, node, spec, s, fr):
+        """a prange body may read the arrays it writes only at [loop variable]; scalars assigned in the
+        body are iteration-private in numba (no reductions in the verified kernels)"""
+        if not isinstance(node.target, ast.Name):
+            raise Unsupported("prange with non-name target")
+        lv = node.target.id
+        for n in ast.walk(ast.Module(body=node.body, type_ignores=[])):
+            if isinstance(n, ast.Subscript) and isinstance(n.value, ast.Name) and n.value.id in spec.prange_writes:
+                if not (isinstance(n.slice, ast.Name) and n.slice.id == lv):
+                    raise Unsupported(f"prange body accesses {n.value.id} at an index other than the loop variable")
+            if isinstance(n, ast.AugAssign) and isinstance(n.target, ast.Name):
+                raise Unsupported("scalar reduction inside prange")
+
+    def prange_frame(self, node, spec, head_heap, s, i, fr):
+        """iteration i changed nothing but cell [i] of the declared arrays (so iterations are independent
+        and sequential semantics is sound for the parallel loop)"""
+        allowed = {}
+        for nm in spec.prange_writes:
+            v = fr.entry_vals.get(nm, s.env.get(nm))
+            if not isinstance(v, SArr) or v.ndim != 1 or len(v.dims) != 1:
+                raise Unsupported("prange write target must be a 1-d array")
+            allowed[v.base.id] = v
+        for bid, after in s.heap.items():
+            before = head_heap.get(bid)
+            if before is None or before is after or _content_same(before, after):
+                continue
+            if bid not in allowed:
+                self.oblige(fr, s, 'prange-frame', 'writes-only-declared-arrays', SBool(False), node.lineno)
+                continue
+            v = allowed[bid]
+            _, off, stride, n = v.dims[0]
+            ra, rb = st.content_reader(v.base, after), st.content_reader(v.base, before)
+            own = off + stride * i
+
+            def unchanged(j, ra=ra, rb=rb, own=own):
+                a, b = ra([j]), rb([j])
+                eq = a.same(b) if isinstance(a, SFloat) else (a.iff(b) if isinstance(a, SBool) else a == b)
+                return Implies(j != own, eq)
+            from .values import forall
+            self.oblige(fr, s, 'prange-frame', 'iteration-writes-only-own-cell', forall('int', unchanged), node.lineno)
 
     def bind_target(self, target, dom, i, s, fr):
         if dom['kind'] == 'range':
@@ -703,6 +802,7 @@ class Engine:
                 if not live:
                     return outs
             raise Unsupported("while loop unrolling bound exceeded")
+        self.name_functional_arrays(s)
         entry = s.clone()
         entry.guards = list(s.guards)
         self.check_inv(fr, s, spec, entry, {}, 'inv-init', node.lineno)
@@ -796,7 +896,7 @@ class Engine:
         if any(it[0] in ('mask', 'fancy') for it in items):
             bnp.store_fancy(self, s, fr, obj, items, v, lineno)
             return
-        dims, checks = st.apply_index(obj, items)
+        dims, checks = st.apply_index(obj, items, s.knows)
         for (i, n) in checks:
             self.oblige(fr, s, 'store', 'index-in-bounds', And(SInt(0) <= i, i < n), lineno)
         tgt = SArr(obj.base, dims)
@@ -933,7 +1033,12 @@ class Engine:
         acc = SBool(True)
         for op, rn in zip(node.ops, node.comparators):
             right = self.eval(rn, s, fr)
-            acc = acc & self.compare(op, left, right, s, fr)
+            r = self.compare(op, left, right, s, fr)
+            if isinstance(r, SArr):
+                if len(node.ops) != 1:
+                    raise Unsupported("chained comparison of arrays")
+                return r
+            acc = acc & r
             left = right
         return acc
 
@@ -1115,7 +1220,7 @@ class Engine:
             items = self.index_items(node.slice, s, fr)
             if any(it[0] in ('mask', 'fancy') for it in items):
                 return bnp.load_fancy(self, s, fr, obj, items, node.lineno)
-            dims, checks = st.apply_index(obj, items)
+            dims, checks = st.apply_index(obj, items, s.knows)
             for (i, n) in checks:
                 self.oblige(fr, s, 'index', 'index-in-bounds', And(SInt(0) <= i, i < n), node.lineno)
             res = SArr(obj.base, dims)
@@ -1231,6 +1336,8 @@ def _arrays_in(v, lists):
 
 def _content_same(a, b):
     if isinstance(a, dict) and isinstance(b, dict):
+        if a.get('fn') is not None or b.get('fn') is not None:
+            return a.get('fn') is b.get('fn')
         tv = (a['tag'] is None and b['tag'] is None) or (a['tag'] is not None and b['tag'] is not None
                                                          and a['tag'].eq(b['tag']))
         return a['val'].eq(b['val']) and tv
@@ -1239,22 +1346,22 @@ def _content_same(a, b):
     return False
 
 
+def _cells_equal(x, y):
+    if isinstance(x, SFloat):
+        return x.same(y)
+    if isinstance(x, SBool):
+        return x.iff(y)
+    return x == y
+
+
 def _content_equal(base, a, b):
     if isinstance(a, dict):
-        conj = [a['val'] == b['val']]
-        if a['tag'] is not None or b['tag'] is not None:
-            ta = a['tag'] if a['tag'] is not None else z3.K(int_sort(), z3.IntVal(FIN))
-            tb = b['tag'] if b['tag'] is not None else z3.K(int_sort(), z3.IntVal(FIN))
-            conj.append(ta == tb)
-        return SBool(z3.And(*conj))
+        from .values import forall
+        ra, rb = st.content_reader(base, a), st.content_reader(base, b)
+        return forall(['int'] * len(base.shape), lambda *js: _cells_equal(ra(list(js)), rb(list(js))))
     out = SBool(True)
     for x, y in zip(a, b):
-        if isinstance(x, SFloat):
-            out = out & x.same(y)
-        elif isinstance(x, SBool):
-            out = out & x.iff(y)
-        else:
-            out = out & (x == y)
+        out = out & _cells_equal(x, y)
     return out
 
 
@@ -1262,6 +1369,8 @@ def _merge_content(c, a, b):
     if a is b:
         return a
     if isinstance(a, dict) and isinstance(b, dict):
+        if a.get('fn') is not None or b.get('fn') is not None:
+            return None   # resolved by the caller with the base at hand
         cz = c.z()
         val = a['val'] if a['val'].eq(b['val']) else z3.If(cz, a['val'], b['val'])
         if a['tag'] is None and b['tag'] is None:
@@ -1270,7 +1379,7 @@ def _merge_content(c, a, b):
             ta = a['tag'] if a['tag'] is not None else z3.K(int_sort(), z3.IntVal(FIN))
             tb = b['tag'] if b['tag'] is not None else z3.K(int_sort(), z3.IntVal(FIN))
             tag = ta if ta.eq(tb) else z3.If(cz, ta, tb)
-        return {'val': val, 'tag': tag}
+        return {'val': val, 'tag': tag, 'fn': None}
     if isinstance(a, tuple) and isinstance(b, tuple) and len(a) == len(b):
         return tuple(x if x is y else merge_values(c, x, y) for x, y in zip(a, b))
     raise Unsupported("merge of differently shaped arrays")
